@@ -476,6 +476,29 @@ func c15RunStack(c *fw.C, caseID string, parts []string) {
 			okc++
 		}
 	case "base-proto-hostile":
+		// every base-protocol code (handshake again, disconnect, ping, pong, the 12 unassigned ones) with every payload
+		// shape, one fresh connection each: the offending peer goes, the node and the honest peer stay
+		shapes := [][]byte{{}, {0xc0}, {0x80}, {0x04}, {0xc1}, {0xc1, 0x04}, {0xc2, 0x04, 0x05}, {0xc2, 0xc1, 0x04}, {0xf8}, {0xb8, 0xff}, {0xff, 0xff, 0xff}, c15RlpList(c15RlpUint(1 << 40))}
+		for code := uint64(0); code < 16; code++ {
+			for si, p := range shapes {
+				if code > 3 && si%4 != int(code)%4 {
+					continue // unassigned codes share one handler: sample
+				}
+				b := hostileSession()
+				if b == nil {
+					return
+				}
+				c.Eval(1)
+				_ = b.send(code, p)
+				// a second message proves (or not) that the first one was digested; errors are fine
+				_ = b.send(2, []byte{0xc0})
+				b.conn.Close()
+				if !s.checkA(fmt.Sprintf("base-protocol code %d payload shape %x", code, p)) {
+					return
+				}
+				okc++
+			}
+		}
 		for v := 0; v < 6; v++ {
 			b := hostileSession()
 			if b == nil {
